@@ -26,6 +26,24 @@
 (*            nothing the adapter could trace                              *)
 (*   fb       "custom" (a block fallback is configured) | "default"        *)
 (*   outcome  "ok" | "err" | "panic"   what the handler does when invoked  *)
+(*   side     "server" | "client"  what the entry point IS (its API): a    *)
+(*            server-side middleware / interceptor / handler wrapper       *)
+(*            guards INBOUND traffic, a client-side interceptor / wrapper  *)
+(*            guards OUTBOUND calls.  Only inbound traffic is subject to   *)
+(*            system (adaptive) protection and counted on the global       *)
+(*            inbound node (property C07)                                  *)
+(*   flow     a resource rule that rejects the request is loaded on the    *)
+(*            request's resource                                           *)
+(*   sys      "none" (no system rule loaded) | "slack" (loaded, not        *)
+(*            violated) | "violated" (a loaded system rule is violated at  *)
+(*            the moment the entry is asked)                               *)
+(* The DECISION is part of the contract where the arrangement fixes it:    *)
+(*   a request through a server-side entry point is subject to system      *)
+(*   protection - blocked, with block type "system", iff a loaded system   *)
+(*   rule is violated; a call through a client-side entry point never is;  *)
+(*   without a rejecting resource rule nothing else blocks.  With a        *)
+(*   rejecting resource rule (flow) the decision stays free: the resource  *)
+(*   name the adapter derives is not part of the statement.                *)
 (*                                                                         *)
 (* PART 2 - a small design model: K requests run concurrently through an   *)
 (* adapter written the way the contract demands (entry, early return on    *)
@@ -38,6 +56,16 @@
 EXTENDS Integers, Sequences, FiniteSets, TLC
 
 Outcomes == {"ok", "err", "panic"}
+Sides    == {"server", "client"}
+SysStates == {"none", "slack", "violated"}
+
+\* the decision the contract fixes for a request of class cls
+MustBlock(cls) == cls.side = "server" /\ cls.sys = "violated"     \* system protection guards inbound traffic ...
+MustAdmit(cls) == ~MustBlock(cls) /\ ~cls.flow                     \* ... and nothing but inbound traffic
+\* the block type a block of such a request must carry (the system check precedes the resource rules)
+BlockKind(cls) == IF MustBlock(cls) THEN "system" ELSE "flow"
+\* what an admitted, not yet exited request of this class adds to the gauge of the global inbound node
+InboundShare(cls) == IF cls.side = "server" THEN 1 ELSE 0
 
 ---------------------------------------------------------------------------
 (* PART 1: the automaton *)
@@ -53,8 +81,8 @@ ComplOK(e, cls) ==
       [] OTHER                               -> e \in {"complete", "complete-err"}   \* panic; error invisible to the adapter
 
 Step(ph, e, cls) ==
-    CASE ph = Start      /\ e = "pass"                         -> "admitted"
-      [] ph = Start      /\ e = "block"                        -> "blocked"
+    CASE ph = Start      /\ e = "pass"  /\ ~MustBlock(cls)     -> "admitted"
+      [] ph = Start      /\ e = "block" /\ ~MustAdmit(cls)     -> "blocked"
       [] ph = "admitted" /\ e = "handler" /\ cls.wraps         -> "running"
       [] ph = "admitted" /\ ~cls.wraps /\ e = "complete"       -> "exited"
       [] ph = "running"  /\ ComplOK(e, cls)                    -> "exited"
@@ -73,10 +101,15 @@ Viable(evs, cls)  == Run(Start, evs, cls) # Bad
 Count(evs, e) == Cardinality({ i \in DOMAIN evs : evs[i] = e })
 Admitted(evs) == Count(evs, "pass") > 0
 Exits(evs)    == Count(evs, "complete") + Count(evs, "complete-err")
+\* the block type recorded with the block event (kind; "" = no block seen) is the one the contract demands
+KindOK(evs, kind, cls) == IF Count(evs, "block") > 0 THEN kind = BlockKind(cls) ELSE kind = ""
 
 \* the first thing that is wrong with a log (diagnostics for the trace validator; "" = nothing)
 Diagnose(evs, cls) ==
     CASE Count(evs, "pass") + Count(evs, "block") = 0                    -> "no-entry-asked"
+      [] MustBlock(cls) /\ Count(evs, "pass") > 0                         -> "server-request-admitted-despite-violated-system-rule"
+      [] MustAdmit(cls) /\ Count(evs, "block") > 0 /\ cls.sys = "violated" -> "client-call-blocked-by-system-protection"
+      [] MustAdmit(cls) /\ Count(evs, "block") > 0                        -> "blocked-without-a-violated-rule"
       [] Count(evs, "block") > 0 /\ Count(evs, "handler") > 0            -> "handler-invoked-when-blocked"
       [] Count(evs, "block") > 0 /\ cls.fb = "custom" /\ Count(evs, "fallback") = 0  -> "configured-fallback-not-produced"
       [] Count(evs, "block") > 0 /\ cls.fb = "default" /\ Count(evs, "reject") = 0   -> "default-rejection-not-produced"
@@ -95,33 +128,59 @@ Diagnose(evs, cls) ==
 
 CONSTANTS
     K,        \* number of concurrent requests
-    Classes,  \* set of [wraps, errsig, fb] the requests are drawn from
+    Classes,  \* set of [wraps, errsig, fb, side] the requests are drawn from
+    Limits,   \* system rules explored: "inbound requests in flight through this adapter < limit", i.e. the headroom that
+              \* the rule leaves once the other inbound traffic of the process is subtracted: 0 = violated whatever the
+              \* adapter does (others hold the gauge at the threshold; InboundQPS < 0), -1 = no system rule loaded
     Mut       \* "none" | "no-defer" | "handler-when-blocked" | "double-exit" | "no-trace" | "no-fallback"
+              \* | "server-as-outbound" | "client-as-inbound"
 
 VARIABLES
     pc,       \* request -> program counter of the adapter code
-    cls,      \* request -> class (with the handler outcome)
+    cls,      \* request -> class (with the handler outcome; flow / sys are fixed when the entry is asked)
     log,      \* request -> observable events so far
-    conc      \* Sentinel's in-flight gauge of the resource
+    conc,     \* Sentinel's in-flight gauge of the resource
+    limit,    \* the loaded system rule: inbound concurrency < limit (-1: none)
+    inb,      \* Sentinel's in-flight gauge of the global inbound node
+    kind      \* request -> block type carried by its block event ("" = none)
 
-vars == <<pc, cls, log, conc>>
+vars == <<pc, cls, log, conc, limit, inb, kind>>
 Reqs == 1..K
 
 Init ==
     /\ pc = [r \in Reqs |-> "ask"]
-    /\ cls \in [Reqs -> { [wraps |-> c.wraps, errsig |-> c.errsig, fb |-> c.fb, outcome |-> o] : c \in Classes, o \in Outcomes }]
+    /\ cls \in [Reqs -> { [wraps |-> c.wraps, errsig |-> c.errsig, fb |-> c.fb, side |-> c.side, outcome |-> o, flow |-> FALSE, sys |-> "none"] :
+                          c \in Classes, o \in Outcomes }]
     /\ log = [r \in Reqs |-> << >>]
     /\ conc = 0
+    /\ limit \in Limits
+    /\ inb = 0
+    /\ kind = [r \in Reqs |-> ""]
 
 Emit(r, e) == log' = [log EXCEPT ![r] = Append(@, e)]
 Goto(r, l) == pc' = [pc EXCEPT ![r] = l]
 
-\* entry, blockErr := sentinel.Entry(...)
+\* the traffic type the adapter hands to sentinel.Entry: the side of the entry point (WithTrafficType)
+AsksInbound(r) == CASE Mut = "server-as-outbound" -> FALSE      \* e.g. the option is dropped: api.EntryOptions defaults to Outbound
+                    [] Mut = "client-as-inbound"  -> TRUE
+                    [] OTHER                      -> cls[r].side = "server"
+\* the state of system protection right now
+SysNow == IF limit < 0 THEN "none" ELSE IF inb >= limit THEN "violated" ELSE "slack"
+
+\* entry, blockErr := sentinel.Entry(resource, WithTrafficType(side), ...)
+\* Sentinel: the system check (inbound entries only) precedes the resource rules; f = a resource rule rejects the request
 Ask(r) ==
     /\ pc[r] = "ask"
-    /\ \/ /\ Emit(r, "pass") /\ conc' = conc + 1 /\ Goto(r, IF cls[r].wraps THEN "call" ELSE "exit")
-       \/ /\ Emit(r, "block") /\ conc' = conc /\ Goto(r, "blocked")
-    /\ UNCHANGED cls
+    /\ \E f \in BOOLEAN :
+         LET sysblk == AsksInbound(r) /\ SysNow = "violated" IN
+         /\ cls' = [cls EXCEPT ![r].flow = f, ![r].sys = SysNow]
+         /\ IF sysblk \/ f
+            THEN /\ Emit(r, "block") /\ conc' = conc /\ inb' = inb /\ Goto(r, "blocked")
+                 /\ kind' = [kind EXCEPT ![r] = IF sysblk THEN "system" ELSE "flow"]
+            ELSE /\ Emit(r, "pass") /\ conc' = conc + 1 /\ Goto(r, IF cls[r].wraps THEN "call" ELSE "exit")
+                 /\ inb' = inb + (IF AsksInbound(r) THEN 1 ELSE 0)
+                 /\ UNCHANGED kind
+    /\ UNCHANGED limit
 
 \* if blockErr != nil { fallback or default rejection; return }
 OnBlock(r) ==
@@ -129,7 +188,7 @@ OnBlock(r) ==
     /\ IF Mut = "no-fallback" THEN UNCHANGED log
        ELSE Emit(r, IF cls[r].fb = "custom" THEN "fallback" ELSE "reject")
     /\ Goto(r, IF Mut = "handler-when-blocked" THEN "call" ELSE "done")
-    /\ UNCHANGED <<cls, conc>>
+    /\ UNCHANGED <<cls, conc, limit, inb, kind>>
 
 \* defer entry.Exit(); err := next(...)
 Call(r) ==
@@ -138,7 +197,7 @@ Call(r) ==
     /\ Goto(r, CASE cls[r].outcome = "panic" -> IF Mut = "no-defer" THEN "done" ELSE "exit"   \* without defer a panic skips Exit
                  [] Count(log[r], "block") > 0 -> "done"                                       \* (broken variant only)
                  [] OTHER -> "exit")
-    /\ UNCHANGED <<cls, conc>>
+    /\ UNCHANGED <<cls, conc, limit, inb, kind>>
 
 \* if err != nil { TraceError }; (deferred) entry.Exit()
 Exit(r) ==
@@ -146,22 +205,30 @@ Exit(r) ==
     /\ LET traced == cls[r].wraps /\ cls[r].outcome = "err" /\ cls[r].errsig /\ Mut # "no-trace" IN
        Emit(r, IF traced THEN "complete-err" ELSE "complete")
     /\ conc' = conc - 1
+    /\ inb' = inb - (IF AsksInbound(r) THEN 1 ELSE 0)
     /\ Goto(r, IF Mut = "double-exit" /\ Exits(log[r]) = 0 THEN "exit" ELSE "done")
-    /\ UNCHANGED cls
+    /\ UNCHANGED <<cls, limit, kind>>
 
 Next == \E r \in Reqs : Ask(r) \/ OnBlock(r) \/ Call(r) \/ Exit(r)
 Spec == Init /\ [][Next]_vars
 
 Done(r) == pc[r] = "done"
+Asked(r) == pc[r] # "ask"
 InFlight == { r \in Reqs : Admitted(log[r]) /\ Exits(log[r]) = 0 /\ ~Done(r) }
+RECURSIVE SumShare(_)
+SumShare(S) == IF S = {} THEN 0 ELSE LET r == CHOOSE x \in S : TRUE IN InboundShare(cls[r]) + SumShare(S \ {r})
 
 TypeOK == /\ \A r \in Reqs : pc[r] \in {"ask", "blocked", "call", "exit", "done"}
           /\ conc \in -K..K
-\* every finished request honoured the contract; every running one can still do so
-ContractHonoured == \A r \in Reqs : IF Done(r) THEN Accepts(log[r], cls[r]) ELSE Viable(log[r], cls[r])
+          /\ inb \in -K..K
+          /\ limit \in Limits
+          /\ \A r \in Reqs : kind[r] \in {"", "flow", "system"} /\ cls[r].sys \in SysStates /\ cls[r].side \in Sides
+\* every finished request honoured the contract (decision and block type included); every running one can still do so
+ContractHonoured == \A r \in Reqs : /\ IF Done(r) THEN Accepts(log[r], cls[r]) ELSE Viable(log[r], cls[r])
+                                    /\ Asked(r) => KindOK(log[r], kind[r], cls[r])
 \* the gauge counts exactly the admitted requests that have not exited, and returns to zero
 GaugeExact    == conc = Cardinality(InFlight)
-GaugeReturns  == (\A r \in Reqs : Done(r)) => conc = 0
+GaugeReturns  == (\A r \in Reqs : Done(r)) => conc = 0 /\ inb = 0
 \* the clauses one by one (so that a counterexample names the clause)
 NoHandlerWhenBlocked == \A r \in Reqs : Count(log[r], "block") > 0 => Count(log[r], "handler") = 0
 HandlerOnce   == \A r \in Reqs : Count(log[r], "handler") <= 1 /\ (Done(r) /\ Admitted(log[r]) /\ cls[r].wraps => Count(log[r], "handler") = 1)
@@ -170,4 +237,13 @@ ErrorTraced   == \A r \in Reqs : (Done(r) /\ Admitted(log[r]) /\ cls[r].wraps /\
                                     => Count(log[r], "complete-err") = 1
 FallbackProduced == \A r \in Reqs : (Done(r) /\ Count(log[r], "block") > 0)
                                     => Count(log[r], IF cls[r].fb = "custom" THEN "fallback" ELSE "reject") = 1
+\* a request through a server-side entry point is subject to system protection ...
+SystemProtects == \A r \in Reqs : (Asked(r) /\ cls[r].side = "server" /\ cls[r].sys = "violated")
+                                    => Count(log[r], "block") = 1 /\ Count(log[r], "pass") = 0 /\ kind[r] = "system"
+\* ... a call through a client-side entry point never is
+ClientNeverSystemBlocked == \A r \in Reqs : cls[r].side = "client" => kind[r] # "system"
+\* nothing is blocked without a cause: a violated system rule (server side) or a rejecting resource rule
+BlockHasCause == \A r \in Reqs : Count(log[r], "block") > 0 => (cls[r].flow \/ (cls[r].side = "server" /\ cls[r].sys = "violated"))
+\* the global inbound gauge counts exactly the in-flight requests of server-side entry points
+InboundExact  == inb = SumShare(InFlight)
 =============================================================================
